@@ -27,15 +27,17 @@ Rec == ndJsonDeserialize(IOEnv.TRACE)
 VARIABLE l
 tvars == <<vars, l>>
 
-\* the module's machine variables carry the current input; the machine itself is not stepped here
-TInit == /\ l = 1 /\ defs = <<>> /\ filter = {} /\ body = <<>> /\ phase = "done"
+\* the module's machine variables carry the current input; the machine itself is not stepped here.
+\* `phase` tracks the protocol of a history: reset ("fresh") -> result | map ("judged") -> [info ("closed")],
+\* so that a missing or repeated record is rejected.
+TInit == /\ l = 1 /\ defs = <<>> /\ filter = {} /\ body = <<>> /\ phase = "closed"
          /\ ksrc = <<>> /\ kreach = {} /\ kept = None /\ frames = <<>> /\ estack = <<>> /\ result = None
 IsEvent(e) == l <= Len(Rec) /\ Rec[l].ev = e /\ l' = l + 1
-Keep == UNCHANGED <<defs, filter, body, phase, ksrc, kreach, kept, frames, estack, result>>
+Keep == UNCHANGED <<defs, filter, body, ksrc, kreach, kept, frames, estack, result>>
 
-TReset == /\ IsEvent("reset")
+TReset == /\ IsEvent("reset") /\ phase \in {"judged", "closed"} /\ phase' = "fresh"
           /\ defs' = Rec[l].defs /\ filter' = Range(Rec[l].filter) /\ body' = Rec[l].body
-          /\ UNCHANGED <<phase, ksrc, kreach, kept, frames, estack, result>>
+          /\ UNCHANGED <<ksrc, kreach, kept, frames, estack, result>>
 
 \* the first error in the machine's check order, by a direct recursion (Strict only)
 RECURSIVE FirstErr(_, _)
@@ -57,14 +59,14 @@ ResultOk(res) ==
        /\ Range(res.ok.kept) = KeepD(defs, filter) /\ NoDup(res.ok.kept)
   ELSE /\ IsErr(Want) /\ res.err \in Want.err
 
-TResult == /\ IsEvent("result") /\ ResultOk(Rec[l].res) /\ Keep
+TResult == /\ IsEvent("result") /\ phase = "fresh" /\ phase' = "judged" /\ ResultOk(Rec[l].res) /\ Keep
 
 \* C21 on a recorded result of the source-map entry point
 MapOk(res, same) ==
   /\ same
   /\ IsOk(res) => WFMap(defs, filter, body, res.ok.out, res.ok.map, {})
 
-TMap == /\ IsEvent("map") /\ MapOk(Rec[l].res, Rec[l].same) /\ Keep
+TMap == /\ IsEvent("map") /\ phase = "fresh" /\ phase' = "judged" /\ MapOk(Rec[l].res, Rec[l].same) /\ Keep
 
 \* beyond the statements (Strict only)
 InfoOk(r) ==
@@ -74,7 +76,7 @@ InfoOk(r) ==
                           /\ \A n \in DOMAIN r.sources : r.sources[n] = ListSources(r.res.ok.map, n - 1))
   /\ IsErr(r.res) => Some(r.res.err) = FirstErr(body, <<>>)
 
-TInfo == /\ IsEvent("info") /\ (Strict => InfoOk(Rec[l])) /\ Keep
+TInfo == /\ IsEvent("info") /\ phase = "judged" /\ phase' = "closed" /\ (Strict => InfoOk(Rec[l])) /\ Keep
 
 TNext == TReset \/ TResult \/ TMap \/ TInfo
 TSpec == TInit /\ [][TNext]_tvars
